@@ -253,41 +253,51 @@ class Model(object):
             from . import tables
             self.calls_canonical = callform.canonicalise(
                 self, set(tables.schema_modules(self)))
+        # every function is first put into its statement forms on its own
+        # (sa/desugar.py, sa/foldtemps.py) - on every tree, the reference one
+        # included - so that renamed functions are recognised by their
+        # normalised bodies and helper calls stand where fusing their returns
+        # into the caller's arms is possible
+        self.folded = {}
+        self.desugared = 0
+        self._statement_forms()
         self.func_renamed = {}
         if not os.environ.get("VERIF_NO_FUNCRENAME"):
             self.func_renamed = funcrename.restore_names(self)
         self.inlined = inline.expand_new_helpers(self)
-        # single-use temporaries are folded into the statement that uses them
-        # (sa/foldtemps.py) - on every tree, the reference one included; after
-        # desugaring, so that a conditional expression or comprehension bound
-        # to a name has its statement form first
-        self.folded = {}
-        self.desugared = 0
+        if self.inlined:
+            self._statement_forms(only=set(self.inlined))
+        for q, fi in self.funcs.items():
+            self._alpha(q, fi.node)
+
+    def _statement_forms(self, only=None):
+        from . import desugar, tables
+        generated = set(tables.schema_modules(self))
+
+        def short(q):
+            return q[len(self.pkg) + 1:] if q.startswith(self.pkg + ".") else q
+        todo = [q for q, fi in self.funcs.items()
+                if fi.module not in generated and
+                (only is None or short(q) in only)]
         if not os.environ.get("VERIF_NO_DESUGAR"):
-            from . import tables
-            generated = set(tables.schema_modules(self))
-            for q, fi in self.funcs.items():
-                if fi.module in generated:
-                    continue       # generated bindings: reflected, not read
-                self.desugared += desugar.desugar_function(fi.node)
-        changed = self._fold_all()
+            for q in todo:
+                self.desugared += desugar.desugar_function(self.funcs[q].node)
+        changed = self._fold_all(todo)
         # an expression written back in place may have a statement form of its
         # own (a generator handed to extend(), a conditional expression ...)
         if changed and not os.environ.get("VERIF_NO_DESUGAR"):
             for q in changed:
                 self.desugared += desugar.desugar_function(self.funcs[q].node)
-            self._fold_all()
-        for q, fi in self.funcs.items():
-            self._alpha(q, fi.node)
+            self._fold_all(changed)
 
-    def _fold_all(self):
+    def _fold_all(self, quals=None):
         if os.environ.get("VERIF_NO_FOLD"):
             return []
         changed = []
         from . import foldtemps, tables
         generated = set(tables.schema_modules(self))
         for q, fi in self.funcs.items():
-            if fi.module in generated:
+            if fi.module in generated or (quals is not None and q not in quals):
                 continue
             short = q[len(self.pkg) + 1:] if q.startswith(self.pkg + ".") \
                 else q
@@ -297,6 +307,7 @@ class Model(object):
                     k += foldtemps.fold_function(sub, {
                         a.arg for a in ast.walk(sub.args)
                         if isinstance(a, ast.arg)})
+                    k += foldtemps.coalesce_copies(sub)
             if k:
                 self.folded[short] = self.folded.get(short, 0) + k
                 changed.append(q)
